@@ -117,7 +117,7 @@ GroupVerdicts(k) ==
                                                         ELSE cnt("c3") > cnt("c2") /\ cnt("c2") > cnt("c1"))
                       THEN {} ELSE {Fail("C15", "probability-ordering-frequencies", "")})
           ELSE IF rel = "samereq" THEN
-             (IF \A j \in f..(k - 1) : Trace[j].case.req = o.case.req => (Trace[j].status = o.status /\ Trace[j].resp = o.resp)
+             (IF \A j \in f..(k - 1) : Trace[j].case.reqkey = o.case.reqkey => (Trace[j].status = o.status /\ Trace[j].resp = o.resp)
               THEN {} ELSE {Fail(o.case.group.p, "history-dependent", "")})
           ELSE IF f = k \/ GroupSummary(Trace[f]) = GroupSummary(o) THEN {}
           ELSE {Fail(o.case.group.p, rel, "")}
